@@ -253,13 +253,21 @@ def gen_two_hap(rng, t, unprefixed=False, primary=None):
                 k2 = rng.randint(1, min(3, len(p2)))
                 g2, p2 = p2[:k2], p2[k2:]
                 h2s.append(g2)
+        moved_in = False
+        if primary and gi == 0 and p2 and rng.random() < 0.4:
+            # a piece that was assembled into the other haplotype is moved to the start of the Primary chromosome:
+            # the chromosome's haplotype TAG says where it goes, not the name of its first piece
+            g1 = [p2.pop()] + g1
+            moved_in = True
+            labels.add("tag:primary-chromosome-starts-with-piece-named-after-other-haplotype")
         # first piece localised, later pieces may be unlocs
         for hap, grp in [(0, g1)] + [(1, g) for g in h2s]:
             row_tags = {0: []}
-            if use_tags or not grp[0]["s"].startswith((H1 if hap == 0 else H2) + "_"):
+            if use_tags or (moved_in and hap == 0) or not grp[0]["s"].startswith((H1 if hap == 0 else H2) + "_"):
                 row_tags[0].append(tagcase[hap])
             if hap == 0 and not h2s:
-                row_tags[0].append("Singleton")
+                # (the tag sits on any one piece of the chromosome, not necessarily the first)
+                row_tags.setdefault(rng.randrange(len(grp)) if rng.random() < 0.5 else 0, []).append("Singleton")
             if hap == 0 and primary and gi == 0:
                 row_tags[0].append("Primary")
             if gtag:
